@@ -26,13 +26,21 @@ impl Extra {
         vec![]
     }
     fn audit(&mut self, s: &mut Snapshot, _model: &Model, ctx: &mut RunCtx) {
-        // every stored terminal value appears once
+        // every stored terminal VALUE appears once (numerically: -0.0 is 0.0, a NaN is a NaN)
+        let norm = |c: &TermCode| match c {
+            TermCode::Num(Scalar::F(b)) => {
+                let x = f64::from_bits(*b);
+                TermCode::Num(if x.is_nan() { Scalar::NaN } else if x == 0.0 { Scalar::F(0f64.to_bits()) } else { Scalar::F(*b) })
+            }
+            other => *other,
+        };
         let mut seen: Vec<TermCode> = vec![];
         for c in s.terms.values() {
-            if seen.contains(c) {
+            let c = norm(c);
+            if seen.contains(&c) {
                 ctx.violate(&["C03", "C01"], "duplicate-terminal", format!("terminal value {:?} stored twice", c));
             }
-            seen.push(*c);
+            seen.push(c);
         }
     }
     fn clear(&mut self) {}
